@@ -99,7 +99,7 @@ func runC20(c *rt.C) {
 			if ok != (cur != nil) {
 				fail("remove-result", "Remove(%s) returned %v, model has key present=%v", key, ok, cur != nil)
 			} else if ok && (*ntObj)(p) != cur {
-				fail("remove-ptr", "Remove(%s) returned pointer of object %d, model has %d", key, (*ntObj)(p).id, cur.id)
+				fail("remove-ptr", "Remove(%s) returned pointer %p, model has %p (object %d)", key, p, cur, cur.id) // a wrong pointer is never dereferenced
 			} else if !ok && p != nil {
 				fail("remove-ptr", "Remove(%s) failed but returned a pointer", key)
 			}
@@ -111,7 +111,7 @@ func runC20(c *rt.C) {
 			if (p != nil) != (cur != nil) {
 				fail("get-result", "Get(%s) found=%v, model has key present=%v", key, p != nil, cur != nil)
 			} else if p != nil && (*ntObj)(p) != cur {
-				fail("get-ptr", "Get(%s) returned object %d, model has %d", key, (*ntObj)(p).id, cur.id)
+				fail("get-ptr", "Get(%s) returned pointer %p, model has %p (object %d)", key, p, cur, cur.id)
 			}
 		}
 		if nt.ItemsCount() != int64(len(model)) {
@@ -156,7 +156,25 @@ func runC20List(c *rt.C) {
 	fail := func(kind, f string, a ...interface{}) {
 		c.Violate(kind, fmt.Sprintf(f, a...), map[string]interface{}{"ops": trace})
 	}
+	// acyclic reports whether the chain from Head() ends within the number of nodes ever handed
+	// to the list; Keys()/Remove() on a cyclic chain would never return (and Keys() would grow
+	// without bound), so the chain is walked read-only with a step bound before every call.
+	acyclic := func() bool {
+		bound := len(model) + len(removed) + 8
+		n := nl.Head()
+		for steps := 0; n != nil; steps++ {
+			if steps > bound {
+				return false
+			}
+			n = n.GetLink()
+		}
+		return true
+	}
 	for op := 0; op < nOps && !c.Failed(); op++ {
+		if !acyclic() {
+			fail("list-cycle", "the chain from Head() does not end within %d links (%d nodes are on the list per the model): Keys() and Remove() would never return", len(model)+len(removed)+8, len(model))
+			break
+		}
 		switch x := r.Intn(10); {
 		case x < 1 && len(removed) > 0:
 			// re-add a node that was removed earlier (its link field still holds whatever Remove left there)
